@@ -11,15 +11,20 @@ pub use cgt_money::{Currency, CurrencyAmount};
 
 /// Serialize a Decimal to at most 2 decimal places for monetary amounts.
 mod decimal_money {
-    use rust_decimal::Decimal;
+    use rust_decimal::{Decimal, RoundingStrategy};
     use serde::{self, Serialize, Serializer};
+
+    /// Round to pence with midpoints away from zero, as the text and PDF reports do.
+    fn round_to_pence(value: Decimal) -> Decimal {
+        value.round_dp_with_strategy(2, RoundingStrategy::MidpointAwayFromZero)
+    }
 
     pub fn serialize<S>(value: &Decimal, serializer: S) -> Result<S::Ok, S::Error>
     where
         S: Serializer,
     {
         // Round to 2 decimal places for display
-        let rounded = value.round_dp(2);
+        let rounded = round_to_pence(*value);
         serializer.serialize_str(&rounded.to_string())
     }
 
@@ -31,7 +36,7 @@ mod decimal_money {
         where
             S: Serializer,
         {
-            let rounded = self.0.round_dp(2);
+            let rounded = round_to_pence(self.0);
             serializer.serialize_str(&rounded.to_string())
         }
     }
